@@ -27,6 +27,13 @@ def gen_case(r):
     n = r.between(0, 4)
     rules = [G.rule_for(r, d, mode="typed", cast_p=50, cond_depth=2, max_len=3, meaningful=True, jsonable=True)
              for _ in range(n)]
+    # a condition with data-path arguments (modifiers defined on the first document)
+    patharg = False
+    if rules and r.pct() < 22:
+        from . import c17
+        i = r.below(len(rules))
+        rules[i] = rules[i].replace(cond=c17.gen_leaf_with_paths(r, d, jsonable=True), cast=None)
+        patharg = True
     # plant castable strings as in C15
     GOOD = {"bool": ["true", "True", "FALSE", "false"], "int": ["3", "-12", " 7 "]}
     for rl in rules:
@@ -45,7 +52,7 @@ def gen_case(r):
         sub = r.choice(conts) if conts else d
         T = G.schema_for(r, sub, min_rules=1, max_rules=2, mode="typed", cast_p=50, cond_depth=1, max_len=2, meaningful=True, jsonable=True)
         extra = (T, root, r.coin(70))
-    return SchemaT(rules), [d, G.hostile_doc(r, 3)], extra
+    return SchemaT(rules), [d, G.hostile_doc(r, 3)], extra, patharg
 
 
 def summ(vd, schema):
@@ -54,9 +61,11 @@ def summ(vd, schema):
 
 
 def body(case):
-    schema, docs, extra = case
+    schema, docs, extra, patharg = case
     out = Outcome()
     ns = build.ns()
+    if patharg:
+        out.label("path-valued-argument")
     fired = False
     for rl in schema.rules:
         if rl.cast:
@@ -123,7 +132,7 @@ def body(case):
     except Exception as e:
         out.exc("equality", e)
         return out
-    for d in docs:
+    for di, d in enumerate(docs):
         ref = model.ref_schema_validate(schema, d)
         try:
             a, b = S.validate(copy.deepcopy(d)), S2.validate(copy.deepcopy(d))
@@ -133,6 +142,8 @@ def body(case):
         if summ(a, schema) != summ(b, schema):
             out.add("same-behaviour", "same-behaviour|schema", f"original {show(summ(a, schema),200)} rebuilt {show(summ(b, schema),200)} on {show(d,150)}")
             return out
+        if patharg and di > 0:
+            continue  # the path arguments' modifiers are defined on the first document only (as in C17)
         if b.is_valid is not ref["valid"] or b.num_failures != ref["nfail"] or exact(b.cast_data) != exact(ref["cast"]):
             out.add("same-behaviour", "same-behaviour|vs-reference", f"rebuilt valid={b.is_valid} nfail={b.num_failures} cast={show(b.cast_data,120)}; reference {ref['valid']} {ref['nfail']} {show(ref['cast'],120)}")
             return out
